@@ -1,6 +1,6 @@
 (* C04, D-layer: what refine_droplet hands to the optimiser and what it makes of the answer
    (Model/Refine.v over the generated lines Gen_refine), relative to the stated optimiser specification. *)
-From Coq Require Import QArith Qround ZArith List Bool Arith Lia Lra Psatz.
+From Coq Require Import QArith Qabs Qround ZArith List Bool Arith Lia Lra Psatz.
 Import ListNotations.
 From PD Require Import Model.Grid Gen.Gen_refine Model.Refine Proofs.RefineVec Proofs.Render.
 Local Open Scope Q_scope.
@@ -103,6 +103,25 @@ Proof.
   intros Hp. rewrite Hwf; [reflexivity|exact Hp|]. intros Hs. rewrite Hs in E. discriminate.
 Qed.
 
+(* the unit of the intensities is positive (|vrng|, or 1 for a vanishing range) *)
+Lemma level_scale_pos x : 0 < level_scale x.
+Proof.
+  unfold level_scale. destruct (Qeq_bool x 0) eqn:E; [reflexivity|].
+  assert (Hx : ~ x == 0). { intro H. apply Qeq_bool_iff in H. congruence. }
+  destruct (Qlt_le_dec 0 x) as [H|H].
+  - rewrite Qabs_pos by (apply Qlt_le_weak; exact H). exact H.
+  - rewrite Qabs_neg by exact H. destruct (Qle_lt_or_eq _ _ H) as [H1|H1]; [lra | contradiction].
+Qed.
+
+(* dividing by the unit keeps the order of the levels *)
+Lemma div_scale_lt a b s : 0 < s -> (a < b <-> a / s < b / s).
+Proof.
+  intros Hs. unfold Qdiv. assert (Hi : 0 < / s) by (apply Qinv_lt_0_compat; exact Hs).
+  split; intros H.
+  - apply Qmult_lt_r; assumption.
+  - apply Qmult_lt_r in H; assumption.
+Qed.
+
 (* ---------------------------------------------------------------------------------------- *)
 (* everything `prepare` assembles, in closed form                                            *)
 (* ---------------------------------------------------------------------------------------- *)
@@ -122,11 +141,13 @@ Section Shape.
 
   Lemma prepare_shape :
     dim = g_dim g /\
-    levels vmin_o vmax_o st = (p_vmin p, p_vmax p) /\
+    (exists vmin0 vmax0, levels vmin_o vmax_o st = (vmin0, vmax0) /\
+       p_scale p = level_scale (vrng_of vmin0 vmax0) /\
+       p_vmin p = vmin0 / p_scale p /\ p_vmax p = vmax0 / p_scale p /\ p_vrng p = vrng_of vmin0 vmax0 / p_scale p) /\
     p_drop p = q /\ p_dim p = dim /\ p_width p = w /\
     p_flat p = d_pos q ++ d_rad q :: w :: d_amp q /\
     p_free p = fm ++ repeat true (S (S modes)) /\
-    p_vrng p = vrng_of (p_vmin p) (p_vmax p) /\
+    p_vrng p == vrng_of (p_vmin p) (p_vmax p) /\
     (adjust = false -> p_x0 p = xs /\ p_lo p = b0 /\ p_hi p = b1) /\
     (adjust = true -> p_x0 p = xs ++ [p_vmin p; p_vrng p] /\
                       p_lo p = b0 ++ [Fin (p_vmin p - p_vrng p); Fin 0] /\
@@ -150,12 +171,16 @@ Section Shape.
     rewrite (select_all_true (S (S modes)) (PosInf :: PosInf :: repeat (Fin 1) modes)) by (simpl; rewrite repeat_length; reflexivity).
     fold b0. fold b1.
     destruct (levels vmin_o vmax_o st) as [vmin vmax] eqn:El.
+    unfold normalised_levels. cbv iota beta.
     unfold start_adjust, start_plain, bounds_adjust. unfold flat.
     rewrite (select_app fm (repeat true (S (S modes))) (d_pos q) (d_rad q :: w :: d_amp q)) by exact Hfm.
     rewrite (select_all_true (S (S modes)) (d_rad q :: w :: d_amp q)) by reflexivity.
     fold xs.
-    destruct adjust; intros Hq; injection Hq as <-; cbn [p_drop p_dim p_width p_flat p_free p_vmin p_vmax p_vrng p_x0 p_lo p_hi];
+    pose proof (level_scale_pos (vrng_of vmin vmax)) as Hs.
+    destruct adjust; intros Hq; injection Hq as <-; cbn [p_drop p_dim p_width p_flat p_free p_scale p_vmin p_vmax p_vrng p_x0 p_lo p_hi];
       (repeat split; try reflexivity; try discriminate; try exact Ed).
+    all: try (exists vmin, vmax; repeat split; reflexivity).
+    all: try (unfold vrng_of; field; intro Hz; rewrite Hz in Hs; revert Hs; apply Qlt_irrefl).
     all: intros _; repeat split; rewrite <- ?app_assoc; reflexivity.
   Qed.
 
@@ -235,17 +260,17 @@ Section Feasible.
     - destruct (Hadj eq_refl) as (-> & -> & ->). specialize (Hlev eq_refl).
       rewrite precondition_app by assumption.
       apply precondition_ok; simpl; rewrite ?andb_true_r.
-      + assert (E3 : Qle_bool (p_vmin p - p_vrng p) (p_vmin p) = true) by (apply Qle_bool_iff; rewrite Hrng; unfold vrng_of; lra).
+      + assert (E3 : Qle_bool (p_vmin p - p_vrng p) (p_vmin p) = true) by (apply Qle_bool_iff; unfold vrng_of in Hrng; lra).
         assert (E4 : Qle_bool (p_vmin p) (p_vmax p) = true) by (apply Qle_bool_iff; lra).
-        assert (E5 : Qle_bool 0 (p_vrng p) = true) by (apply Qle_bool_iff; rewrite Hrng; unfold vrng_of; lra).
-        assert (E6 : Qle_bool (p_vrng p) (3 * p_vrng p) = true) by (apply Qle_bool_iff; rewrite Hrng; unfold vrng_of; lra).
+        assert (E5 : Qle_bool 0 (p_vrng p) = true) by (apply Qle_bool_iff; unfold vrng_of in Hrng; lra).
+        assert (E6 : Qle_bool (p_vrng p) (3 * p_vrng p) = true) by (apply Qle_bool_iff; unfold vrng_of in Hrng; lra).
         rewrite E3, E4, E5, E6. reflexivity.
       + assert (E1 : Qle_bool (p_vmax p) (p_vmin p - p_vrng p) = false).
         { destruct (Qle_bool (p_vmax p) (p_vmin p - p_vrng p)) eqn:E; [|reflexivity].
-          apply Qle_bool_iff in E. rewrite Hrng in E. unfold vrng_of in E. lra. }
+          apply Qle_bool_iff in E. unfold vrng_of in Hrng. lra. }
         assert (E2 : Qle_bool (3 * p_vrng p) 0 = false).
         { destruct (Qle_bool (3 * p_vrng p) 0) eqn:E; [|reflexivity].
-          apply Qle_bool_iff in E. rewrite Hrng in E. unfold vrng_of in E. lra. }
+          apply Qle_bool_iff in E. unfold vrng_of in Hrng. lra. }
         rewrite E1, E2. reflexivity.
     - destruct (Hplain eq_refl) as (-> & -> & ->). apply precondition_ok; assumption.
   Qed.
@@ -261,7 +286,7 @@ Section Feasible.
     apply precondition_app_lengths; try congruence; try reflexivity.
     simpl.
     assert (E2 : Qle_bool (3 * p_vrng p) 0 = true).
-    { apply Qle_bool_iff. rewrite Hrng. unfold vrng_of. apply Qnot_lt_le in Hn. lra. }
+    { apply Qle_bool_iff. unfold vrng_of in Hrng. apply Qnot_lt_le in Hn. lra. }
     rewrite E2. simpl. rewrite !andb_false_r. reflexivity.
   Qed.
 End Feasible.
